@@ -191,12 +191,14 @@ let run_case (lines : string list) =
           Printf.printf "perm %s %d" toks.(1) (Array.length p);
           Array.iter (fun v -> Printf.printf " %d" v) p; print_newline ()
         | "free" -> ()
+        | "consts" -> if Array.length toks > 1 then Ext.set_consts toks else Ext.print_consts ()
         | s -> failwith ("unknown command " ^ s)) lines
 
 let () =
   Ext.init { Ext.get_mat; set_mat; deliver; get_perm_list = perm_list; set_perm_list = set_perm;
              bind_null = (fun name -> Hashtbl.replace env name Null);
-             bind_owned = (fun name m -> Hashtbl.replace env name (Owned (ref m))) };
+             bind_owned = (fun name m -> Hashtbl.replace env name (Owned (ref m)));
+             is_window = (fun name -> match Hashtbl.find_opt env name with Some (Win _) -> true | _ -> false) };
   let ic = open_in Sys.argv.(1) in
   let rec read acc = match input_line ic with
     | l -> read (l :: acc)
@@ -216,6 +218,7 @@ let () =
        with
        | Die s -> Printf.printf "fate DIE %s\n" s
        | Unsupported s -> Printf.printf "fate UNSUPPORTED %s\n" s
+       | Ext.Tb_err s -> Printf.printf "fate %s \n" s
        | Failure s -> Printf.printf "fate MODELERROR %s\n" s
        | Not_found -> Printf.printf "fate MODELERROR not_found\n"
        | Invalid_argument s -> Printf.printf "fate MODELERROR %s\n" s);
